@@ -1107,3 +1107,84 @@ def check_tp_tolerance(case):
 
 
 SUBCHECKS.append(SubCheck("tp_tolerance", check_tp_tolerance, _tptol_case, lambda c: f"{c['fn']},{c['form']},{c['side']},tols={c['tols']}", quick=2000, thorough=30000, shards=4))
+
+
+# ------------------------------------------------------------------------------------------
+# tolerance semantics of is_herm_preserving and is_unital (added after seeded change C06-x3 - is_herm_preserving ignoring
+# the caller's rtol / atol - was missed: every generated map was judged at the default tolerances)
+# is_herm_preserving: Choi matrix J compared with J^dagger by numpy.allclose; with J[i, j] = delta and J[j, i] = 0 the two
+# entry tests are |delta| <= atol and |delta| <= atol + rtol |delta|, so the verdict switches at |delta| = atol.
+# is_unital: Phi(I) = (1 + delta) I is compared with I by numpy.allclose, diagonal tolerance atol + rtol.
+# ------------------------------------------------------------------------------------------
+@st.composite
+def _hptol_case(draw):
+    return {
+        "d": draw(st.integers(2, 3)),
+        "seed": draw(gen.SEED),
+        "cplx": draw(st.booleans()),
+        "tols": draw(st.sampled_from([None, [1e-9, 1e-12], [1e-1, 1e-2], [1e-3, 1e-6], [1e-7, 1e-5], [1e-5, 1e-10]])),
+        "only": draw(st.sampled_from(["both", "both", "atol", "rtol"])),
+        "side": draw(st.sampled_from(["violates", "within"])),
+        "factor": draw(st.sampled_from([10.0, 30.0])),
+        "phase": draw(st.sampled_from(["+", "-", "+i", "-i"])),
+        "fn": draw(st.sampled_from(["is_herm_preserving", "is_unital"])),
+        "form": draw(st.sampled_from(["kraus", "choi"])),
+    }
+
+
+def check_hp_unital_tolerance(case):
+    from toqito.channel_props import is_herm_preserving, is_unital
+
+    d = case["d"]
+    rtol, atol = case["tols"] if case["tols"] is not None else (1e-5, 1e-8)
+    kw = {}
+    if case["tols"] is not None:
+        if case["only"] in ("both", "rtol"):
+            kw["rtol"] = rtol
+        else:
+            rtol = 1e-5
+        if case["only"] in ("both", "atol"):
+            kw["atol"] = atol
+        else:
+            atol = 1e-8
+    want = case["side"] == "within"
+    if case["fn"] == "is_herm_preserving":
+        n = d * d
+        g = gen.rng(case["seed"])
+        x = g.normal(size=(n, n)) + (1j * g.normal(size=(n, n)) if case["cplx"] else 0)
+        j = (x + x.conj().T) / 2
+        i0, j0 = (int(v) for v in g.choice(n, size=2, replace=False))
+        delta = atol * case["factor"] if case["side"] == "violates" else atol / case["factor"]
+        ph = {"+": 1.0, "-": -1.0, "+i": 1j, "-i": -1j}[case["phase"]]
+        if not case["cplx"]:
+            ph = ph if isinstance(ph, float) else 1.0
+        j[i0, j0] = delta * ph
+        j[j0, i0] = 0
+        got = bool(is_herm_preserving(j, **kw))
+        req(
+            got == want,
+            f"is_herm_preserving(Choi matrix Hermitian except J[{i0},{j0}] = {delta:.1e}, J[{j0},{i0}] = 0; {kw or 'default tolerances'}) returned {got}; "
+            f"the entrywise tolerance is atol = {atol:.0e}, so the definition gives {want}",
+            "hp:tolerance-semantics",
+        )
+        return
+    band = rtol + atol
+    delta = band * case["factor"] if case["side"] == "violates" else band / case["factor"]
+    if case["phase"] in ("-", "-i"):
+        delta = -delta
+    u = gen.rand_unitary(case["seed"], d, real=not case["cplx"])
+    k = np.sqrt(1 + delta) * u
+    out = k @ k.conj().T
+    if float(np.max(np.abs(out - (1 + delta) * np.eye(d)))) > band / 1000:
+        raise Inconclusive("construction-inexact")
+    rep = [k] if case["form"] == "kraus" else ref.choi_of_pairs([(k, k)], d)
+    got = bool(is_unital(rep, **kw))
+    req(
+        got == want,
+        f"is_unital(<{case['form']}>, {kw or 'default tolerances'}) returned {got} for a map with Phi(I) = (1 {delta:+.1e}) I; "
+        f"the diagonal tolerance is rtol + atol = {band:.1e}, so the definition gives {want}",
+        "unital:tolerance-semantics",
+    )
+
+
+SUBCHECKS.append(SubCheck("hp_unital_tolerance", check_hp_unital_tolerance, _hptol_case, lambda c: f"{c['fn']},{c['side']},tols={c['tols']},{c['only']}", quick=2000, thorough=30000, shards=4))
